@@ -26,6 +26,8 @@ import (
 // compared.  A case is non-trivial when the property predicate applies to it (the inputs are
 // constructed valid archives, so the expected output is known) and the archive has >= 2 blocks.
 
+var c19BigBudget int
+
 func genArch(c *Ctx, r *RNG, maxBlocks int, bigOK bool) Arch {
 	nb := r.Intn(maxBlocks + 1)
 	if r.Chance(70) && nb < 2 {
@@ -40,8 +42,10 @@ func genArch(c *Ctx, r *RNG, maxBlocks int, bigOK bool) Arch {
 		// large archives (thorough tier): index buckets beyond sort.Sort's insertion-sort threshold, where
 		// the order of equal digests is unspecified -- so no two blocks share a digest here
 		c.Count("archive:large-distinct-digests")
-		if r.Chance(30) {
-			g.big = true // one section around the 2^21 varint boundary
+		if c19BigBudget > 0 && r.Chance(50) {
+			g.big = true // one section around the 2^21 varint boundary (few: the model is slow on them)
+			c19BigBudget--
+			c.Count("archive:section-at-2^21")
 		}
 		nb = 13 + r.Intn(maxBlocks-12)
 		blks = nil
@@ -112,6 +116,41 @@ func genArch(c *Ctx, r *RNG, maxBlocks int, bigOK bool) Arch {
 		c.Count("archive:roots")
 	}
 	return a
+}
+
+// c19Pre: what sits at the output path before the command runs -- nothing, a file LONGER than anything the
+// command writes (a recognisable pattern), or a short one.  Appended to the file list as (tpre b..).
+func c19Pre(c *Ctx, r *RNG, files VL, ref int) VL {
+	out := append(VL{}, files...)
+	switch r.Intn(5) {
+	case 0, 1:
+		c.Count("output-path:absent")
+	case 2, 3:
+		out = append(out, VL{VT("pre"), VB(bytes.Repeat([]byte{0xA5, 0x5A, 'P', 'R', 'E'}, (ref+1500)/5))})
+		c.Count("output-path:preexisting-longer")
+	default:
+		out = append(out, VL{VT("pre"), VB([]byte{0xA5, 0x5A, 'P'}[:1+r.Intn(3)])})
+		c.Count("output-path:preexisting-shorter")
+	}
+	return out
+}
+
+// what sits at the output path of filter / get-dag (their file list carries it as files[1])
+func c19PreOut(c *Ctx, r *RNG, ref int, other []byte) Val {
+	switch r.Intn(6) {
+	case 0, 1:
+		c.Count("output-path:absent")
+		return VT("none")
+	case 2, 3:
+		c.Count("output-path:preexisting-longer")
+		return VB(bytes.Repeat([]byte{0xA5, 0x5A, 'P', 'R', 'E'}, (ref+1500)/5))
+	case 4:
+		c.Count("output-path:preexisting-shorter")
+		return VB([]byte{0xA5, 0x5A})
+	default:
+		c.Count("output-path:preexisting-archive")
+		return VB(other)
+	}
 }
 
 func fvals(as ...Arch) VL {
@@ -213,26 +252,27 @@ func c19Archive(c *Ctx, r *RNG, a, b, d Arch) {
 	ex := VL{a.desc()}
 	// readers
 	emitCli(c, "list", VL{}, one, ex, nt)
+	emitCli(c, "listfile", VL{}, c19Pre(c, r, one, len(a.file)), ex, nt)
 	emitCli(c, "root", VL{}, one, ex, nt)
 	emitCli(c, "inspect", VL{VN(1)}, one, VL{}, false)
 	emitCli(c, "inspect", VL{VN(0)}, one, VL{}, false)
 	emitCli(c, "verify", VL{}, one, VL{}, false)
 	// car index
 	for _, k := range []uint64{1, 2, 3} {
-		emitCli(c, "index", VL{VN(k), VN(2)}, one, ex, nt)
+		emitCli(c, "index", VL{VN(k), VN(2)}, c19Pre(c, r, one, len(a.file)), ex, nt)
 	}
 	if r.Chance(30) {
-		emitCli(c, "index", VL{VN(0), VN(2)}, one, ex, nt)
+		emitCli(c, "index", VL{VN(0), VN(2)}, c19Pre(c, r, one, len(a.file)), ex, nt)
 	}
-	emitCli(c, "index", VL{VN(uint64(r.Intn(2))), VN(1)}, one, ex, nt)
+	emitCli(c, "index", VL{VN(uint64(r.Intn(2))), VN(1)}, c19Pre(c, r, one, len(a.file)), ex, nt)
 	if r.Chance(25) {
 		bad := pick(r, []VL{{VN(2), VN(1)}, {VN(4), VN(2)}, {VN(5), VN(2)}, {VN(0), VN(3)}, {VN(3), VN(0)}, {VN(4), VN(1)}})
-		emitCli(c, "index", bad, one, VL{}, false)
+		emitCli(c, "index", bad, c19Pre(c, r, one, len(a.file)), VL{}, false)
 		c.Count("flags:index-rejected-combination")
 	}
 	// car index create, detach-index, detach-index list
-	o := emitCli(c, "indexcreate", VL{VN(uint64(pick(r, []int{0, 3})))}, one, ex, nt)
-	emitCli(c, "indexcreate", VL{VN(2)}, one, ex, nt)
+	o := emitCli(c, "indexcreate", VL{VN(uint64(pick(r, []int{0, 3})))}, c19Pre(c, r, one, len(a.file)), ex, nt)
+	emitCli(c, "indexcreate", VL{VN(2)}, c19Pre(c, r, one, len(a.file)), ex, nt)
 	if r.Chance(10) {
 		emitCli(c, "indexcreate", VL{VN(uint64(pick(r, []int{4, 5})))}, one, VL{}, false)
 	}
@@ -240,7 +280,7 @@ func c19Archive(c *Ctx, r *RNG, a, b, d Arch) {
 		emitCli(c, "detachlist", VL{}, VL{idx}, VL{a.desc(), VN(0)}, nt)
 	}
 	if a.idxKind != 0 {
-		od := emitCli(c, "detach", VL{}, one, VL{a.desc(), VN(a.idxKind), vbool(a.storeID)}, nt)
+		od := emitCli(c, "detach", VL{}, c19Pre(c, r, one, len(a.file)), VL{a.desc(), VN(a.idxKind), vbool(a.storeID)}, nt)
 		if idx, ok := od.(VL)[1].(VB); ok {
 			exl := VL{}
 			if a.idxKind == 3 {
@@ -249,12 +289,12 @@ func c19Archive(c *Ctx, r *RNG, a, b, d Arch) {
 			emitCli(c, "detachlist", VL{}, VL{idx}, exl, nt)
 		}
 	} else if r.Chance(40) {
-		emitCli(c, "detach", VL{}, one, VL{}, false)
+		emitCli(c, "detach", VL{}, c19Pre(c, r, one, len(a.file)), VL{}, false)
 	}
 	// car get-block
 	if len(a.blks) > 0 {
 		for i := 0; i < 2; i++ {
-			emitCli(c, "getblock", VL{VB(pick(r, a.blks).Cid.Bytes())}, one, ex, nt)
+			emitCli(c, "getblock", VL{VB(pick(r, a.blks).Cid.Bytes())}, c19Pre(c, r, one, len(a.file)), ex, nt)
 		}
 		for _, bl := range a.blks {
 			if bl.Cid.Prefix().MhType == 0 {
@@ -263,12 +303,12 @@ func c19Archive(c *Ctx, r *RNG, a, b, d Arch) {
 			}
 		}
 	}
-	emitCli(c, "getblock", VL{VB(genBlock(r, genOpts{maxData: 16}).Cid.Bytes())}, one, ex, nt)
+	emitCli(c, "getblock", VL{VB(genBlock(r, genOpts{maxData: 16}).Cid.Bytes())}, c19Pre(c, r, one, len(a.file)), ex, nt)
 	// car filter
 	none := VT("none")
-	emitCli(c, "filter", VL{c19GenSel(c, r, a, b), VN(0), VN(2), VN(0)}, VL{VB(a.file), none}, ex, nt)
-	emitCli(c, "filter", VL{c19GenSel(c, r, a, b), VN(0), VN(1), VN(0)}, VL{VB(a.file), none}, ex, nt)
-	emitCli(c, "filter", VL{c19GenSel(c, r, a, b), VN(1), VN(uint64(1 + r.Intn(2))), VN(0)}, VL{VB(a.file), VB(b.file)}, ex, nt)
+	emitCli(c, "filter", VL{c19GenSel(c, r, a, b), VN(0), VN(2), VN(0)}, VL{VB(a.file), c19PreOut(c, r, len(a.file), b.file)}, ex, nt)
+	emitCli(c, "filter", VL{c19GenSel(c, r, a, b), VN(0), VN(1), VN(0)}, VL{VB(a.file), c19PreOut(c, r, len(a.file), b.file)}, ex, nt)
+	emitCli(c, "filter", VL{c19GenSel(c, r, a, b), VN(1), VN(uint64(1 + r.Intn(2))), VN(0)}, VL{VB(a.file), c19PreOut(c, r, len(a.file), b.file)}, ex, nt)
 	if r.Chance(10) {
 		emitCli(c, "filter", VL{c19GenSel(c, r, a, b), VN(0), VN(3), VN(0)}, VL{VB(a.file), none}, VL{}, false)
 	}
@@ -276,7 +316,7 @@ func c19Archive(c *Ctx, r *RNG, a, b, d Arch) {
 		// a line cid.Parse refuses: the command stops before the output is touched
 		cl := c19GenSel(c, r, a, b)
 		bad := pick(r, []string{"not-a-cid", "bafy", "Qm0000", "/ipfs/"})
-		txt := append([]byte(bad+pick(r, []string{"\n", "\r\n", ""})), []byte(cl[0].(VB))...)
+		txt := append([]byte(bad+pick(r, []string{"\n", "\r\n"})), []byte(cl[0].(VB))...)
 		if r.Bool() {
 			txt = append(append([]byte(cl[0].(VB)), '\n'), bad...)
 		}
@@ -305,7 +345,11 @@ func c19Archive(c *Ctx, r *RNG, a, b, d Arch) {
 			}
 			exc = append(exc, x.desc())
 		}
-		emitCli(c, "concat", VL{VN(ver)}, fvals(as...), exc, nt && len(exc) > 0)
+		tot := 0
+		for _, x := range as {
+			tot += len(x.file)
+		}
+		emitCli(c, "concat", VL{VN(ver)}, c19Pre(c, r, fvals(as...), tot), exc, nt && len(exc) > 0)
 	}
 	concat(1, a, b)
 	concat(2, a, b)
@@ -508,10 +552,7 @@ func c19GetDag(c *Ctx, r *RNG) {
 		if rootKnown {
 			expect = VL{VB(effRoot.Bytes())}
 		}
-		var outOld Val = VT("none")
-		if r.Chance(20) {
-			outOld = VB(a.file)
-		}
+		outOld := c19PreOut(c, r, len(a.file), a.file)
 		nloads := len(trace.(VL)[0].(VL))
 		emitCli(c, "getdag", VL{VN(ver), rootArg, selJSON, vbool(strict), trace}, VL{VB(a.file), outOld}, expect, rootKnown && nloads >= 2)
 		c.Count("getdag:version-" + string(rune('0'+ver)))
@@ -647,6 +688,31 @@ func c19GetDagShared(c *Ctx, r *RNG) {
 		c.Count("getdag:version-" + string(rune('0'+ver)))
 		c.Count("getdag:shared-block-two-depths")
 	}
+}
+
+// c19OutIndep: the commands the C19 model does not cover (create, extract: C17/C18; debug, compile), only
+// for "the result does not depend on what was at the output path" (see runOutIndep)
+func c19OutIndep(c *Ctx, r *RNG, a Arch) {
+	tree := VL{}
+	for i, n := 0, 1+r.Intn(3); i < n; i++ {
+		tree = append(tree, VL{VB([]byte("f" + string(rune('a'+i)) + ".bin")), VB(r.Bytes(r.Intn(600)))})
+	}
+	emitCli(c, "outindep", VL{VT("create"), VN(uint64(1 + r.Intn(2))), tree}, VL{}, VL{VN(1)}, true)
+	emitCli(c, "outindep", VL{VT("extract"), tree}, VL{}, VL{VN(1)}, true)
+	// debug / compile need decodable blocks: a small dag-cbor / raw archive
+	g := genDag(r, 2, 1, false)
+	var blks []Blk
+	seen := map[string]bool{}
+	for _, nd := range g.nodes {
+		if !seen[nd.c.KeyString()] && nd.c.Prefix().MhType != mh.IDENTITY {
+			seen[nd.c.KeyString()] = true
+			blks = append(blks, Blk{nd.c, nd.data})
+		}
+	}
+	car := refPayload([]cid.Cid{g.tops[0].c}, blks)
+	emitCli(c, "outindep", VL{VT("debug"), VB(car)}, VL{}, VL{VN(1)}, true)
+	emitCli(c, "outindep", VL{VT("compile"), VB(car)}, VL{}, VL{VN(1)}, true)
+	_ = a
 }
 
 func permIdx(r *RNG, n int) []int {
@@ -838,8 +904,12 @@ func init() {
 		for i := 0; i < 5*c.Scale; i++ {
 			c19GetDagShared(c, c.R.Fork())
 		}
+		for i := 0; i < 2*c.Scale; i++ {
+			c19OutIndep(c, c.R.Fork(), archs[i%n])
+		}
 		if c.Thorough {
 			m := 12
+			c19BigBudget = 1
 			large := make([]Arch, m)
 			for i := range large {
 				large[i] = genArch(c, c.R.Fork(), 40, true)
